@@ -241,6 +241,10 @@ func mightContain(f Filter, item []byte) bool {
 func (tfs *tagFamilyFilters) Range(tagName string, rangeOpts index.RangeOpts) (bool, error) {
 	for _, tff := range tfs.tagFamilyFilters {
 		if tf, ok := (*tff)[tagName]; ok {
+			if len(tf.min) == 0 || len(tf.max) == 0 {
+				// No min/max recorded for this block (e.g. a block rewritten by a merge): can't prune.
+				continue
+			}
 			if rangeOpts.Lower != nil {
 				lower, ok := rangeOpts.Lower.(*index.FloatTermValue)
 				if !ok {
